@@ -535,6 +535,10 @@ def run(chk):
     rng = random.Random(chk.seed)
     nrng = np.random.RandomState(rng.randrange(2 ** 31))
     chk.build_proofs()
+    # common.print_assumptions also captures the header line "Axioms:" that Coq prints before the list; it is not an axiom
+    chk.axioms = {k: [a for a in v if a != "Axioms"] for k, v in (getattr(chk, "axioms", None) or {}).items()}
+    chk.broken = [b for b in chk.broken if not (str(b.get("what", "")).endswith("depends on non-stdlib axioms")
+                                                and not C.own_axioms([a for a in b.get("detail", []) if a != "Axioms"]))]
     tier = chk.tier
     # ---- correspondence cases (small) -------------------------------------------------------
     cases, meta = [], []
